@@ -77,15 +77,15 @@ def pools(clsname):
         })
     if clsname.startswith("MassFunction"):
         P.update({
-            "Mmin": [10, 11, 12.5, 16, 8],
-            "Mmax": [15, 14, 13, 17, 9],
+            "Mmin": [10, 11, 12.5, 16, 8, 10.0],
+            "Mmax": [15, 14, 13, 17, 9, 10.3],          # (the last pair with dlog10m = 0.1 .. 0.5: a grid of one to three points)
             "dlog10m": [0.5, 0.25, 1.0],
             "hmf_model": [ff.Tinker08, "PS", "SMT", ff.Warren, "Jenkins", "Behroozi", "Watson", "Tinker10", "Bhattacharya", "NotAFit", None],
             "hmf_params": [{}, {"A": 0.2}, {"a": 0.8}, {"zzz": 1}, {"delta_virs": np.array([200.0, 300.0, 400.0, 600.0, 800.0, 1200.0, 1600.0, 2400.0, 3200.0])}],
             "mdef_model": [None, "SOMean", "SOCritical", "FOF", "SOVirial", "none"],
             "mdef_params": [{}, {"overdensity": 300}, {"linking_length": 0.25}, {"overdensity": 500}],
             "delta_c": [1.686, 1.5, 2, 0.0, 11, "x", 1.6860001],
-            "filter_model": [filters.TopHat, "Gaussian", "SharpK", "TopHat", "Nope"],
+            "filter_model": [filters.TopHat, "Gaussian", "SharpK", "TopHat", "Nope", "SharpKEllipsoid"],
             "filter_params": [{}, {"c": 2.0}],
             "disable_mass_conversion": [True, False],
         })
@@ -240,6 +240,8 @@ def run_history(h, check_every=True, qsubset=None, r=None, stop_on_first=True):
             try:
                 applied = {}
                 before_dicts = {k_: copy.deepcopy(v_) for k_, v_ in obj.parameter_values.items() if isinstance(v_, dict)}
+                pv_before = {k_: canon(v_) for k_, v_ in obj.parameter_values.items()} if op[0] in ("update", "set", "setv") else None
+                obj_before = obj
                 if op[0] == "read":
                     for q in op[1]:
                         rec = read(obj, q)
@@ -282,6 +284,17 @@ def run_history(h, check_every=True, qsubset=None, r=None, stop_on_first=True):
                 rec = ("exc", type(e).__name__, str(e)[:80])
                 if is_internal(rec):
                     viol.append({"at": i, "kind": "bookkeeping-error", "op": op, "exc": rec[1:]})
+                # a rejected update / assignment changes no parameter other than the ones it names
+                if pv_before is not None and obj is obj_before:
+                    named = set(op[1]) if op[0] == "update" else {op[1]}
+                    try:
+                        now_ = {k_: canon(v_) for k_, v_ in obj.parameter_values.items()}
+                        others = [k_ for k_ in pv_before if k_ not in named and now_.get(k_) != pv_before[k_]]
+                    except Exception:
+                        others = []
+                    if others:
+                        viol.append({"at": i, "kind": "rejected-change-altered-other-parameters", "op": show(op), "altered": others[:3],
+                                     "before": {k_: show(pv_before[k_]) for k_ in others[:3]}, "after": {k_: show(now_.get(k_)) for k_ in others[:3]}})
             # parameters are the last applied: an accepted numeric value must be what the object now reports (however close to the old one)
             for k_, v_ in applied.items():
                 if isinstance(v_, (int, float)) and not isinstance(v_, bool):
